@@ -59,7 +59,7 @@ impl Group for Hist {
         "c17.hist"
     }
     fn rule(&self) -> &'static str {
-        "fixture files `!> allow-ips 10.0.0.1`, `… &> cache server:full`, `… &> cache server:300s`, `… &> cache server:query-matters client:full`, `!> hide &> cache server:300s`, `!> cache server:full &> allow-ips …`, `!> hide`, x.private, CRLF variant, a plain file; histories of 3-10 GET/HEAD requests from 10.0.0.1 (listed) and other addresses — allowed first so that a wrongly cached positive answer would leak — for percent-encoded spellings with <= 3 encoded characters (any character incl. the dot and letters of the extension, either hex case), with Accept-Encoding / Range variation, response+file caches on/off; through handle_cache (the client address is its argument); status and content id compared with the model; oracle: the secret marker appears only in replies to the listed address and never for hidden/private files; non-trivial = a guarded file is requested by a non-listed address after a listed one"
+        "fixture files `!> allow-ips 10.0.0.1`, `… &> cache server:full`, `… &> cache server:300s`, `… &> cache server:query-matters client:full`, `!> hide &> cache server:300s`, `!> cache server:full &> allow-ips …`, `!> hide`, x.private, CRLF variant, a plain file; histories of 3-10 GET/HEAD requests from 10.0.0.1 (listed) and other addresses (10.0.0.6, 10.0.0.7, and the listed one embedded in IPv6: `::10.0.0.1`, `::ffff:10.0.0.1`) — allowed first so that a wrongly cached positive answer would leak — for percent-encoded spellings with <= 3 encoded characters (any character incl. the dot and letters of the extension, either hex case), with Accept-Encoding / Range variation, response+file caches on/off; through handle_cache (the client address is its argument); status and content id compared with the model; oracle: the secret marker appears only in replies to the listed address and never for hidden/private files; non-trivial = a guarded file is requested by a non-listed address after a listed one"
     }
     fn parallel(&self) -> bool {
         false
@@ -79,7 +79,9 @@ impl Group for Hist {
             let k = rng.range(3, 10);
             let evs = list((0..k).map(|i| {
                 let f = if rng.chance(3, 4) { focus } else { rng.below(FILES.len()) };
-                let addr = if i == 0 { 1 } else { *rng.pick(&[1usize, 6, 6, 7]) };
+                // 8, 9: the listed IPv4 address inside an IPv6 one (IPv4-compatible `::10.0.0.1`, IPv4-mapped `::ffff:10.0.0.1`) —
+                // other addresses, not listed
+                let addr = if i == 0 { 1 } else { *rng.pick(&[1usize, 6, 6, 7, 8, 9]) };
                 format!("{addr}@{}", hex(spelling(rng, &format!("/{}", FILES[f].0)).as_bytes()))
             }));
             v.push(format!("c17.hist {} {evs}", b01(!rng.chance(1, 5))));
@@ -105,7 +107,7 @@ impl Group for Hist {
         let mut leak = None;
         for (i, ev) in parse_list(p[2]).unwrap().iter().enumerate() {
             let (a, raw) = ev.split_once('@').unwrap();
-            let addr: SocketAddr = format!("10.0.0.{a}:5555").parse().unwrap();
+            let addr: SocketAddr = match a { "8" => "[::10.0.0.1]:5555".parse().unwrap(), "9" => "[::ffff:10.0.0.1]:5555".parse().unwrap(), _ => format!("10.0.0.{a}:5555").parse().unwrap() };
             let target = String::from_utf8(unhex(raw).unwrap()).unwrap();
             let mut b = Request::builder().method(if i % 4 == 3 { "HEAD" } else { "GET" }).uri(&target);
             if i % 3 == 1 { b = b.header("accept-encoding", "gzip, br"); }
